@@ -312,7 +312,7 @@ class TransmitCommand(GraphicsCommand):
         Each payload will be at most `max_payload_size` bytes **before**
         base64-encoding.
         """
-        if self.medium != TransmissionMedium.DIRECT:
+        if self.medium is not None and self.medium != TransmissionMedium.DIRECT:
             yield self
             return
         original_more = self.more
